@@ -14,15 +14,16 @@ pub(crate) enum FieldName {
     /// Named field: user.name, response.status
     Ident(syn::Ident),
 
-    /// Indexed field: tuple.0, tuple.1
-    Index(usize),
+    /// Indexed field: tuple.0, tuple.1 (spanned like the index as written, so that
+    /// errors about the field point into the pattern)
+    Index(syn::Index),
 }
 
 impl fmt::Display for FieldName {
     fn fmt(&self, f: &mut fmt::Formatter<'_>) -> fmt::Result {
         match self {
             FieldName::Ident(ident) => write!(f, "{}", ident),
-            FieldName::Index(index) => write!(f, "{}", index),
+            FieldName::Index(index) => write!(f, "{}", index.index),
         }
     }
 }
@@ -31,11 +32,7 @@ impl quote::ToTokens for FieldName {
     fn to_tokens(&self, tokens: &mut proc_macro2::TokenStream) {
         match self {
             FieldName::Ident(ident) => ident.to_tokens(tokens),
-            FieldName::Index(index) => {
-                // Convert index to a syn::Index for proper token generation
-                let idx = syn::Index::from(*index);
-                idx.to_tokens(tokens);
-            }
+            FieldName::Index(index) => index.to_tokens(tokens),
         }
     }
 }
@@ -59,7 +56,10 @@ impl Parse for FieldName {
             // Successfully parsed as number, consume from real input
             let _: syn::LitInt = input.parse()?;
             let index = checked_index(lit.base10_parse()?, lit.span())?;
-            Ok(FieldName::Index(index))
+            Ok(FieldName::Index(syn::Index {
+                index: index as u32,
+                span: lit.span(),
+            }))
         } else {
             // Try parsing as identifier
             input
@@ -198,7 +198,10 @@ impl Parse for FieldOperation {
         let field_name: FieldName = input.parse()?;
         let field_op = match field_name {
             FieldName::Ident(ident) => FieldOperation::NamedField { name: ident, span },
-            FieldName::Index(index) => FieldOperation::UnnamedField { index, span },
+            FieldName::Index(index) => FieldOperation::UnnamedField {
+                index: index.index as usize,
+                span,
+            },
         };
         operations.push(field_op);
 
@@ -225,7 +228,10 @@ impl FieldOperation {
     pub(crate) fn root_field_name(&self) -> FieldName {
         match self {
             FieldOperation::NamedField { name, .. } => FieldName::Ident(name.clone()),
-            FieldOperation::UnnamedField { index, .. } => FieldName::Index(*index),
+            FieldOperation::UnnamedField { index, span } => FieldName::Index(syn::Index {
+                index: *index as u32,
+                span: *span,
+            }),
             FieldOperation::Chained { operations, .. } => {
                 // Find the first non-Deref operation and get its root field name
                 operations
